@@ -166,7 +166,8 @@ func (t *c08tr) cond(e ast.Expr, env *c08env) string {
 			// a helper that cannot be inlined (e.g. it recurses into the sub-tree) is kept as an OPAQUE
 			// predicate of the node it is called on: the rule is translated relative to it, the facts range
 			// over both of its values, its meaning is modelled by hand and tied by the correspondence run
-			if t.findFunc(fn.Name) != nil {
+			// (only helpers whose meaning the model knows: ppIsProductChain = Ecal.Print.isProductChain)
+			if t.findFunc(fn.Name) != nil && fn.Name == "ppIsProductChain" {
 				for _, a := range v.Args {
 					if who, ok := t.node(a, env); ok {
 						t.opaque = append(t.opaque, fn.Name)
